@@ -187,8 +187,8 @@ type appCase struct {
 	Env   map[string]string `json:"env,omitempty"`
 	TZ    int               `json:"tz_offset_s,omitempty"` // time.Local = FixedZone(offset)
 	// TZName: time.Local = the named zone of the tz database (zones with daylight-saving rules); takes precedence over TZ
-	TZName string `json:"tz_name,omitempty"`
-	Mod   func(a *cli.App)  `json:"-"`
+	TZName string           `json:"tz_name,omitempty"`
+	Mod    func(a *cli.App) `json:"-"`
 	// SortedMaps: deliver map keys in sorted order. By default (no explorer-installed
 	// order) every ranged map is delivered in REVERSE sorted order, so that a report
 	// that forgets to sort is exposed by every check, not only by C05.
